@@ -329,6 +329,7 @@ class ESME:
         '''
         sleep_task: Optional[Task] = None
         event_task: Optional[Task] = None
+        probe_task: Optional[Task] = None
         try:
             while True:
                 # Wait for interval to expire or data event to be triggered, whichever comes first.
@@ -346,7 +347,7 @@ class ESME:
 
                 if sleep_task in done:
                     # Interval expired, send keep-alive message
-                    asyncio.create_task(self._send_data(EnquireLink()))
+                    probe_task = asyncio.create_task(self._send_data(EnquireLink()))
                     # Wait for data for predefined time, after which TimeoutError will be raised
                     await asyncio.wait_for(event_task, self.socket_timeout)
                 else:
@@ -365,6 +366,11 @@ class ESME:
             await self._cancel_task(event_task, 'Connection keeper data wait')
             self._logger.debug('Connection keeper cancelled')
             raise
+        finally:
+            if probe_task is not None and not probe_task.done():
+                # The probe may be stuck on a connection that takes no more data (holding the
+                # write lock): it must not outlive the session it was meant for
+                probe_task.cancel()
 
     async def _wait_until_bound(self) -> None:
         '''
